@@ -490,6 +490,9 @@ func TestVerifC15(t *testing.T) {
 			if s == nil || req == nil {
 				return
 			}
+			if req.Header.Get(vC15Header) == "" {
+				return // a client of a "gone_before" prelude: not a step of the case
+			}
 			id, _ := strconv.Atoi(req.Header.Get(vC15Header))
 			s.mu.Lock()
 			s.events = append(s.events, []any{kind, id})
@@ -567,8 +570,53 @@ func TestVerifC15(t *testing.T) {
 	}
 	results[0] = map[string]any{"i": 0, "kind": "config", "blackhole_ok": blackholeOK, "custom_pages": custom}
 
+	// goneBefore: clients whose error page cannot be delivered.  The service is paused, n clients send a small POST and
+	// reset their connections while the request waits at the gate (its body unread, so the server is not watching the
+	// connection), the target is made to refuse connections and the service is resumed: each request fails with a page
+	// written to a connection that is gone.  Nothing of this may show in what any later client is sent.
+	goneBefore := func(s *vC15Svc, n int) {
+		s.mu.Lock()
+		nEvents := len(s.events)
+		s.mu.Unlock()
+		defer func() { // the prelude's own drain (the pause) is not part of the case's event log
+			s.mu.Lock()
+			if len(s.events) > nEvents {
+				s.events = s.events[:nEvents]
+			}
+			s.mu.Unlock()
+		}()
+		s.target.begin(map[string]any{"fault": "refused"})
+		if err := router.PauseService(s.name, time.Second, 20*time.Second); err != nil {
+			return
+		}
+		conns := []net.Conn{}
+		for k := 0; k < n; k++ {
+			c, err := net.Dial("tcp", httpAddr)
+			if err != nil {
+				continue
+			}
+			fmt.Fprintf(c, "POST /gone HTTP/1.1\r\nHost: %s\r\nContent-Length: 10\r\n\r\n0123456789", s.host)
+			conns = append(conns, c)
+		}
+		time.Sleep(60 * time.Millisecond)
+		for _, c := range conns {
+			vC15Reset(c)
+		}
+		time.Sleep(30 * time.Millisecond)
+		router.ResumeService(s.name)
+		for w0 := time.Now(); time.Since(w0) < 2*time.Second; {
+			time.Sleep(5 * time.Millisecond)
+			if s.inflight() == 0 && time.Since(w0) > 50*time.Millisecond {
+				break
+			}
+		}
+	}
+
 	runStep := func(s *vC15Svc, st map[string]any) map[string]any {
 		res := map[string]any{"id": vInt(st["id"])}
+		if n := int(vInt(st["gone_before"])); n > 0 {
+			goneBefore(s, n)
+		}
 		s.target.begin(st)
 		method := vStr(st["method"])
 		if method == "" {
